@@ -1,11 +1,21 @@
 ------------------------------ MODULE MCLevel ------------------------------
 EXTENDS Level, LevelParse
-\* byte order: "a" < "aa" < "b" < "bb" < "c" < "d" < "x" < "é"
-MC_SegName == <<"a", "aa", "b", "bb", "c", "d", "x", "é">>
+\* byte order: "a" < "aa" < "aé" < "b" < "bb" < "c" < "d" < "x" < "é" < "éa"
+MC_SegName == <<"a", "aa", "aé", "b", "bb", "c", "d", "x", "é", "éa">>
+MC_SegChars == << <<"a">>, <<"a", "a">>, <<"a", "é">>, <<"b">>, <<"b", "b">>, <<"c">>, <<"d">>, <<"x">>, <<"é">>, <<"é", "a">> >>
 \* a, aa, b, a::b, a::bb, a::b::c, aa::b, é::a
-MC_RegPaths == {<<1>>, <<2>>, <<3>>, <<1, 3>>, <<1, 4>>, <<1, 3, 5>>, <<2, 3>>, <<8, 1>>}
-\* registered paths plus c, a::x, a::b::c::d, é, aa::bb, b::a
-MC_Modules == MC_RegPaths \cup {<<5>>, <<1, 7>>, <<1, 3, 5, 6>>, <<8>>, <<2, 4>>, <<3, 1>>}
+MC_RegPaths == {<<1>>, <<2>>, <<4>>, <<1, 4>>, <<1, 5>>, <<1, 4, 6>>, <<2, 4>>, <<9, 1>>}
+\* registered paths plus c, a::x, a::b::c::d, é, aa::bb, b::a, and for the byte-level rule of
+\* is_child_of: aé, aé::b (a is a byte prefix, the cut falls before a 2-byte character), éa, éa::a (é is a
+\* character prefix), x::a, a::é (the length of a registered text falls inside a character or beyond the end)
+MC_Modules == MC_RegPaths \cup {<<6>>, <<1, 8>>, <<1, 4, 6, 7>>, <<9>>, <<2, 5>>, <<4, 1>>,
+                                <<3>>, <<3, 4>>, <<10>>, <<10, 1>>, <<8, 1>>, <<1, 9>>}
+RECURSIVE ConcatS(_)
+ConcatS(q) == IF q = <<>> THEN "" ELSE Head(q) \o ConcatS(Tail(q))
+ASSUME Len(MC_SegChars) = Len(MC_SegName) /\ \A i \in 1..Len(MC_SegName) : ConcatS(MC_SegChars[i]) = MC_SegName[i]
+\* the relation is_child_of computes is the statement's ancestor-or-self relation, on every pair
+ASSUME ChildOfIsSelfOrAncestor
+ASSUME ChildOfLine
 \* textual level values; the table of their lenient parse is printed once for the harness
 LevelTokens == {
     <<"w", "a", "r", "n">>,
@@ -35,5 +45,18 @@ LevelTokens == {
     <<"e", "r", "r", "o", "r", "4">>,
     <<"e", "R", "R", "o", "R">>}
 
-ASSUME PrintT(<<"TOKENS", ToJson({[text |-> t, lvl |-> ParseLevel(t)] : t \in LevelTokens})>>)
+\* white space of every class, independently before and after a level word (level A: str::trim + the
+\* lenient grammar).  All 49 x 4 paddings go to the plain MinLevelFilter (min x unleveled default);
+\* the map is also asked with the paddings of one side only and of the same class on both sides.
+PadWords == { <<"w", "a", "r", "n">>, <<"E", "R", "R", "O", "R">>, <<"d", "b", "g">>, <<"I", "n", "f", "o", "(", "2", ")">> }
+Padded(W, sides) == {p[1] \o w \o p[2] : w \in W, p \in sides}
+AllSides == WsClasses \X WsClasses
+MapSides == {p \in AllSides : p[1] = <<>> \/ p[2] = <<>> \/ p[1] = p[2]}
+MapPadTokens == Padded({<<"E", "R", "R", "O", "R">>}, MapSides)
+FilterPadTokens == Padded(PadWords, AllSides)
+ASSUME \A w \in PadWords, p \in AllSides : ParseLevel(p[1] \o w \o p[2]) = ParseLevel(w) /\ ParseLevel(w) # 0
+
+\* map: the token is also used in the module x token matrix of every MinLevelPathMap transition
+ASSUME PrintT(<<"TOKENS", ToJson({[text |-> t, lvl |-> ParseLevel(t), map |-> TRUE] : t \in LevelTokens \cup MapPadTokens}
+                                  \cup {[text |-> t, lvl |-> ParseLevel(t), map |-> FALSE] : t \in FilterPadTokens \ MapPadTokens})>>)
 =============================================================================
